@@ -704,6 +704,11 @@ func (r *vcRun) apply(op []json.RawMessage) []interface{} {
 			r.nextDef++
 			def := fmt.Sprintf("cdata:\"u%d\"", r.nextDef)
 			if err := r.mgr.UpdateTag(name, UpdateTagOperationUpdateQuery(def)); err != nil {
+				if strings.Contains(err.Error(), "too complex") {
+					// a tag that keeps converters refuses a data query (/repo 7bcf2d3): the request is validated before
+					// anything is mutated, so this is an expected outcome without state change = the action is not enabled
+					return nil
+				}
 				panic(fmt.Sprintf("UpdateTag(%q,%q): %v", name, def, err))
 			}
 		}
